@@ -3,6 +3,7 @@ package props
 import (
 	"context"
 	"fmt"
+	"github.com/ajitpratap0/GoSQLX/pkg/sql/keywords"
 	"math/rand"
 	"os"
 	"path/filepath"
@@ -52,6 +53,11 @@ func c10Parent(c *mon.Ctx) {
 	}
 	sh = append(sh, shards("plain", "metrics", 2)...)
 	sh = append(sh, shards("plain", "snapshots", 2)...)
+	for i := 0; i < 6; i++ {
+		// six fresh processes: each is one cold start
+		sh = append(sh, mon.Shard{Variant: "race", Phase: "dialects-cold", Name: fmt.Sprintf("dialects-cold-%02d", i), Args: []string{"-shard", fmt.Sprint(i), "-nshards", "6"}, Timeout: 10 * time.Minute,
+			Env: []string{fmt.Sprintf("GORACE=halt_on_error=0 log_path=%s/race-dc%d", c.RunDir, i)}})
+	}
 	res := c.RunShards(sh, 8)
 	c.ClassifyDeaths(res, "no fatal concurrent map access / crash")
 	total, dedup := mon.CountRaceReports(c.RunDir + "/race-")
@@ -588,5 +594,68 @@ func c10Child(a *ChildArgs) {
 		c10Metrics(a)
 	case "snapshots":
 		c10Snapshots(a)
+	case "dialects-cold":
+		c10DialectsCold(a)
+	}
+}
+
+// c10DialectsCold starts concurrently from a cold process: no sequential pass has touched the per-dialect state of the
+// library before the goroutines do, each round with a dialect order of its own; the sequential reference is computed
+// afterwards. (A warm-up pass would initialise lazily built per-dialect tables and hide unsynchronised initialisation.)
+func c10DialectsCold(a *ChildArgs) {
+	dialects := []keywords.SQLDialect{keywords.DialectMySQL, keywords.DialectPostgreSQL, keywords.DialectSQLite, keywords.DialectSQLServer, keywords.DialectOracle, keywords.DialectGeneric,
+		keywords.DialectSnowflake, keywords.DialectBigQuery, keywords.DialectRedshift}
+	inputs := []string{"SELECT a FROM t LIMIT 1, 2", "SELECT a FROM t WHERE b = 1", "SELECT `q` FROM t", "SELECT TOP 5 a FROM t", "SELECT a FROM t FETCH FIRST 3 ROWS ONLY", "SELECT FROM"}
+	type res struct {
+		d   keywords.SQLDialect
+		in  int
+		out string
+	}
+	call := func(d keywords.SQLDialect, sql string) string {
+		t, err := parser.ParseWithDialect(sql, d)
+		out := errDigest(err) + "|" + errDigest(parser.ValidateWithDialect(sql, d))
+		tk, terr := tokenizer.NewWithDialect(d)
+		if terr == nil {
+			toks, e := tk.Tokenize([]byte(sql))
+			out += "|" + fmt.Sprint(len(toks)) + errDigest(e)
+			tk.SetDialect(d)
+		}
+		if t != nil {
+			out += "|" + dump.Dump(t)
+		}
+		return out
+	}
+	workers := 16
+	var wg sync.WaitGroup
+	results := make([][]res, workers)
+	start := make(chan struct{})
+	for w := 0; w < workers; w++ {
+		wg.Add(1)
+		go func(w int) {
+			defer wg.Done()
+			<-start
+			for k := 0; k < len(dialects)*len(inputs); k++ {
+				d := dialects[(k+w)%len(dialects)]
+				in := (k/len(dialects) + w) % len(inputs)
+				results[w] = append(results[w], res{d, in, call(d, inputs[in])})
+			}
+		}(w)
+	}
+	close(start)
+	wg.Wait()
+	ref := map[string]string{}
+	for _, d := range dialects {
+		for i, in := range inputs {
+			ref[string(d)+"|"+fmt.Sprint(i)] = call(d, in)
+		}
+	}
+	for w := range results {
+		for _, r := range results[w] {
+			a.Rec.Count("evaluations", 1)
+			a.Rec.Distinct("cases", fmt.Sprintf("dialects-cold/%s/%d", r.d, r.in))
+			if want := ref[string(r.d)+"|"+fmt.Sprint(r.in)]; r.out != want {
+				a.Rec.Viol("C10/result/dialect-cold/"+string(r.d), "every call returns exactly what it returns when run alone", fmt.Sprintf("dialect %s input %q under %d goroutines from a cold start: got %s want %s", r.d, inputs[r.in], workers, trunc(r.out, 200), trunc(want, 200)), map[string]interface{}{"dialect": r.d, "input": inputs[r.in]})
+			}
+		}
 	}
 }
